@@ -704,8 +704,16 @@ func cmdCheck(args []string) int {
 		name := fmt.Sprintf("%s-%s-%d.json", id, sanitize(rf.Violation.Clause+"-"+rf.Violation.Key), rf.Seed)
 		path := filepath.Join(replayDir, name)
 		os.WriteFile(path, final, 0o644)
-		ok := 0
-		for i := 0; i < 2; i++ {
+		// Every replay must re-execute the identical schedule (same trace hash). A
+		// functional violation must also recur every time. A race report additionally
+		// depends on happens-before edges through standard-library pools (fmt,
+		// encoding/json) that no seam controls: it counts as reproduced when 2 of up
+		// to 6 identical-schedule replays report it.
+		ok, attempts, hashBad := 0, 2, 0
+		if pc.race && v.Violation.Clause == "data-race" {
+			attempts = 6
+		}
+		for i := 0; i < attempts && ok < 2; i++ {
 			rraw, _, err := b.oneShot(Spec{Mode: "replay", Replay: path}, fmt.Sprintf("rep%d-%d", len(seen), i), 120*time.Second)
 			if err != nil {
 				continue
@@ -715,9 +723,15 @@ func cmdCheck(args []string) int {
 				SameHash   bool `json:"same_hash"`
 			}
 			json.Unmarshal(rraw, &ro)
+			if !ro.SameHash {
+				hashBad++
+			}
 			if ro.Reproduced && ro.SameHash {
 				ok++
 			}
+		}
+		if hashBad > 0 {
+			ok = 0
 		}
 		if ok < 2 {
 			os.Rename(path, filepath.Join(os.TempDir(), "verif-unreproduced-"+name))
